@@ -125,6 +125,34 @@ CLAIMED["C18"] = dict(
     note="Equality of Enc values for equal arguments is then functional determinism of safe Rust code without interior state; byte values are not decided.",
     technique="static analysis: loop-emission summaries and term matching over rustc MIR")
 
+CLAIMED["C05"] = dict(
+    cat="other", ref="DESIGN.md §3 C05",
+    text="Decides the arithmetic skeleton of the layout, not byte values: Partition equals the RFC's formula; calculate_block_offsets and "
+         "Decoder::new give the first ZL blocks KL symbols and the following ZS blocks KS symbols contiguously; create_symbols and "
+         "unpack_sub_blocks match reference renderings of the RFC's sub-block interleaving (roles of Partition[T/Al, N], running offsets, "
+         "bytes_s * K stride), which are inverse to each other; zero padding is appended only at the tail of a block that passes the end "
+         "of the data; block i gets SBN i; symbols are whole multiples of T.",
+    note="Reference renderings in /verif/fixtures/rfcref are written from RFC 6330 4.4.1.2 and never executed.",
+    technique="static analysis: loop-summary comparison against RFC reference code + term matching over rustc MIR")
+CLAIMED["C07"] = dict(
+    cat="other", ref="DESIGN.md §3 C07",
+    text="Decides structural preconditions of configuration independence: every call or store compiled in only one of {debug, release} "
+         "(found exactly, by source span, in std and no_std builds) is pure, confined to debug-only state, or one of four reviewed "
+         "release/debug twins with identical row operands whose side conditions are checked (start column only reaches add_assign_rows, "
+         "the operation is recorded unconditionally, A is dead after the fifth phase in release); planned, cached and direct (no_std) "
+         "encoders use the one sparse-threshold constant; CPU paths are gated and dispatched as in C11.",
+    note="Does not decide that dense and sparse solves agree (C16) nor that errata 11 is mathematically valid.",
+    technique="static analysis: cross-configuration MIR diff by source span with an explicit exception table + dataflow side conditions")
+CLAIMED["C09"] = dict(
+    cat="other", ref="DESIGN.md §3 C09",
+    text="Decides non-interference and position-wise application, the structural reason plans and decoding are independent of symbol "
+         "contents and size: the solver touches the slab only through whole-symbol operations returning (), the symbol size it reads flows "
+         "only into a replacement slab, it reads no slab field; plan replay maps each operation variant to the slab method with its own "
+         "operands; slab methods address phys(i)*symbol_size with one stride and reach their kernel unconditionally; dispatchers never "
+         "branch on buffer contents; Enc writes whole symbols (first copy, then xor).",
+    note="Linearity itself is algebra over the kernels' element-wise semantics (C10, C11) and is not re-derived.",
+    technique="static analysis: API-restriction (who-may-call) and information-flow rules over rustc MIR terms")
+
 NOT_APPLICABLE = {
     "C03": "probability over random erasure patterns; no clause of it is visible in the shape of the code",
     "C06": "invertibility of 477 concrete matrices and plan-replay equality are run-time linear algebra; no sound structural proxy",
